@@ -452,6 +452,9 @@ func FuncIs(fn *ssa.Function, pkgPath, name string) bool {
 		return false
 	}
 	rel := fn.RelString(pkg)
+	if a, ok := Aliases[fn]; ok {
+		rel = a
+	}
 	if i := strings.Index(rel, "["); i >= 0 && fn.Origin() != nil {
 		rel = rel[:i] // generic instantiation: compare the origin's name
 	}
